@@ -326,6 +326,7 @@ class Arr:
         self.id = next(_ids)
         self.label = label
         self.base = None          # view of another Arr (writes through a view reach the base)
+        self.cid = self.id        # content identity: preserved by copies, refreshed by writes
         self.unit = None
 
     def __repr__(self):
